@@ -56,6 +56,7 @@ Inductive Case47 :=
 | MV1 (m : MsgV1) (c : N)
 | MV2 (u : bytes) (m : MsgV2) (c : N)
 | MC (m : MsgClient) (c : N)
+| SoloMis (seq : N) (s1 s2 : option SigData) (c : N)
 | Sample (c : N).
 
 Definition check47 (c : Case47) : bool :=
@@ -111,5 +112,6 @@ Definition check47 (c : Case47) : bool :=
   | MV1 m c => cls_is (msg_v1_validate_basic m) c
   | MV2 u m c => cls_is (msg_v2_validate_basic u m) c
   | MC m c => cls_is (msg_client_validate_basic m) c
+  | SoloMis seq s1 s2 c => cls_is (solo_misbehaviour_validate_basic seq s1 s2) c
   | Sample c => negb (c =? 2)
   end.
